@@ -1047,3 +1047,42 @@ func (c *RC) orderedFillReach(fn *FuncInfo, depth int) bool {
 	}
 	return false
 }
+
+// M-START-ASKS (C09, restart clause): Start puts a node with EMPTY consensus state into the protocol. A validator that
+// restarts inside a height cannot know what it said before it went down; if it is the primary and proposes again at once,
+// the second proposal differs from the first (new nonce, new timestamp), the validators that prepared and committed on
+// the first one ignore it, and the restarted primary throws away everything they send it (hashes and signatures do not
+// match its second proposal): with F further validators silent nobody can commit or change view any more. So the
+// starting entry itself must not propose — it may ask for recovery, or wait for its timer.
+func ruleStartAsks(c *RC) *RuleResult {
+	r := &RuleResult{Rule: "M-START-ASKS", Kind: "MUST", Doc: "the entry that starts a node with empty consensus state does not broadcast a proposal of its own accord (a restarted primary would contradict what it proposed before the crash)"}
+	start := c.API["Start"]
+	r.Sites++
+	if start == nil {
+		r.unresolved("API entry Start")
+		return r
+	}
+	proposers := map[*FuncInfo]bool{}
+	for _, ss := range c.sendSites {
+		if hasKind(ss.Kinds, "PrepareRequestType") {
+			proposers[ss.Site.Fn] = true
+			proposers[c.servedRoot(ss.Site.Fn)] = true
+		}
+	}
+	if len(proposers) == 0 {
+		r.unresolved("typed send site of kind PrepareRequest")
+		return r
+	}
+	bad := ""
+	for _, s := range c.A.FnSites[start] {
+		if s.Kind == "call" && s.Target != nil && proposers[s.Target] {
+			bad = c.Prog.Pos(s.Node)
+		}
+	}
+	if bad == "" {
+		r.ok("Start does not propose by itself")
+	} else {
+		r.fail("Start/proposes-without-recovery", bad, "Start sends a PrepareRequest straight away when the node is the primary: a primary that restarts after it proposed signs a second, different proposal for the same height and view; the validators that committed on the first ignore it, the restarted node rejects their responses and commits, and with F other validators silent the height is never decided")
+	}
+	return r
+}
